@@ -7,6 +7,9 @@ THEOREMS = [
     'Sbepp.Properties.C15.set_bit_spec',
     'Sbepp.Properties.C15.set_then_get',
     'Sbepp.Properties.C15.set_bit_eq_spec',
+    'Sbepp.Properties.C15.set_sequence',
+    'Sbepp.Properties.C15.set_same_noop',
+    'Sbepp.Properties.C15.set_commute',
     'Sbepp.Spec.setBit_spec',
 ]
 WIDTH = {'u8': 8, 'u16': 16, 'u32': 32, 'u64': 64}
